@@ -25,7 +25,7 @@ def run(ctx):
              "on readers/mergers/filesets/sorters (untouched, half-drained, drained, sought), sorters (1 entry per chunk .. in memory, pooled or not, destroyed unused / before iterating / after iteration / after a reported failure), "
              "filesets with dups, reloads and setfile rewrites; teardown in a random order consistent with the dependency graph; then fd/maps/threads/dir snapshots, LSan and live-heap steady state; distinct_nontrivial = distinct histories",
         evaluations=s.get("histories", 0),
-        floors={"histories": 1000, "objects.sorter": 2000, "objects.iter": 5000, "objects.fileset": 1000, "objects.merger": 2000, "life.sorter.destroyed_before_iterating": 300,
+        floors={"histories": 1000, "objects.sorter": 2000, "objects.iter": 5000, "objects.fileset": 1000, "objects.merger": 2000, "objects.usersource": 300, "life.usersource.free_callback_calls_at_destroy.1": 300, "life.sorter.destroyed_before_iterating": 300,
                 "life.sorter.destroyed_after_iteration": 300, "life.sorter.destroyed_unused": 100, "life.sorter.destroyed_after_reported_failure": 20, "life.sorter.pooled": 300,
                 "life.iter.destroyed_half_drained": 1000, "life.iter.destroyed_untouched": 1000, "life.iter.destroyed_drained": 500, "life.merger.failing_merge_callback": 200,
                 "ops.reader.non_table_returned_null": 500, "ops.writer.refused_add": 1000, "checks.lsan": 100, "ops.fileset.reload_now": 300, "ops.reader.mmap_failure_returned_null": 100, "ops.fileset.partition": 100, "ops.reader.forged_index_extent": 500, "life.sorter.write_refused_by_nonempty_writer": 20},
